@@ -324,8 +324,48 @@ func ruleR102(c *Ctx) {
 						c2, ok := y.(*ast.CompositeLit)
 						return ok && (a.isStack(pinfo.TypeOf(c2)) || isNamed(pinfo.TypeOf(c2), modPath+"/funcGen", "stackStorage"))
 					}))
+					// a private helper of the constructors: every use of it is a call inside a constructor or a method of Stack
+					helperOfCtors := false
+					if !allowed[name] && !fd.Name.IsExported() && fd.Recv == nil {
+						obj := pinfo.Defs[fd.Name]
+						uses, ok2 := 0, true
+						for _, f2 := range pkg.Syntax {
+							ast.Inspect(f2, func(y ast.Node) bool {
+								id, ok := y.(*ast.Ident)
+								if !ok || pinfo.Uses[id] != obj {
+									return true
+								}
+								uses++
+								var p ast.Node = id
+								if ix, ok := c.Parent(p).(*ast.IndexExpr); ok && ix.X == ast.Expr(id) {
+									p = ix
+								}
+								call, isCall := c.Parent(p).(*ast.CallExpr)
+								if !isCall || ast.Unparen(call.Fun) != p.(ast.Expr) {
+									ok2 = false
+									return true
+								}
+								ed := c.EnclosingDecl(id)
+								if ed == nil {
+									ok2 = false
+									return true
+								}
+								if allowed[declName(pkg, ed)] {
+									return true
+								}
+								if ed.Recv != nil && recvTypeName(ed.Recv.List[0].Type) == "Stack" {
+									return true
+								}
+								ok2 = false
+								return true
+							})
+						}
+						helperOfCtors = uses > 0 && ok2
+					}
 					if allowed[name] {
 						c.OK(k, cl.Pos(), "stack constructor")
+					} else if helperOfCtors {
+						c.OK(k, cl.Pos(), "private helper that is only called by the stack constructors and methods of Stack")
 					} else {
 						c.Violation(k, cl.Pos(), "a value stack is assembled outside the stack constructors: its storage can be shared with other evaluations")
 					}
@@ -660,6 +700,53 @@ func ruleR102b(c *Ctx) {
 				var root ast.Node = fn
 				if d := c.EnclosingDecl(call); d != nil {
 					root = d
+				}
+				// a parameter of a private helper: the obligation moves to the call sites of the helper
+				if isParam {
+					if hd, ok := fn.(*ast.FuncDecl); ok && !hd.Name.IsExported() && hd.Type.Params != nil {
+						pidx, pk := -1, 0
+						for _, p := range hd.Type.Params.List {
+							for _, nm := range p.Names {
+								if info.Defs[nm] == obj {
+									pidx = pk
+								}
+								pk++
+							}
+						}
+						hobj := info.Defs[hd.Name]
+						sites, allFresh := 0, true
+						if pidx >= 0 {
+							for _, f2 := range pkg.Syntax {
+								ast.Inspect(f2, func(y ast.Node) bool {
+									cc, ok := y.(*ast.CallExpr)
+									if !ok || pidx >= len(cc.Args) {
+										return true
+									}
+									if cal := Callee(info, cc); cal == nil || types.Object(cal) != hobj && cal.Origin() != hobj {
+										return true
+									}
+									sites++
+									aid, ok := ast.Unparen(cc.Args[pidx]).(*ast.Ident)
+									if !ok {
+										allFresh = false
+										return true
+									}
+									var croot ast.Node = c.EnclosingFunc(cc)
+									if d := c.EnclosingDecl(cc); d != nil {
+										croot = d
+									}
+									if croot == nil || !freshLocal(pkg, croot, info.ObjectOf(aid), 0) {
+										allFresh = false
+									}
+									return true
+								})
+							}
+						}
+						if sites > 0 && allFresh {
+							c.OK(key, call.Pos(), "the adopted slice is a parameter of a private helper; every call site of the helper passes a slice it allocated itself")
+							return true
+						}
+					}
 				}
 				switch {
 				case isParam:
